@@ -23,7 +23,8 @@ EXPLANATION = (
     "once, a fresh checksum is an update from 0, the value an update returns resumes the core exactly "
     "where it stopped (chunks compose, whether the register inversion lives in the core or in the entry "
     "points), and an empty chunk changes nothing; (5) the page-header parser sets has_crc to a constant "
-    "true in the arm that reads field 4, whatever the stored value. Decides these clauses, not equality "
+    "true in the arm that reads field 4, whatever the stored value. A page whose load failed is retried at the same position, not stepped over (carquet_read_next_page "
+    "executed abstractly over page states x a failing load; rule shared with C02.2). Decides these clauses, not equality "
     "with zlib for all inputs nor the CRC's error-detection algebra.")
 
 PR = "src/reader/page_reader.c"
@@ -45,6 +46,9 @@ def run(ctx):
     ctx.clause("C14.3 reflected IEEE polynomial constant")
     ctx.clause("C14.4 CRC routine reads every input byte exactly within bounds (skeleton execution)")
     ctx.clause("C14.5 a stored CRC is never ignored: the header parser sets has_crc whenever field 4 is present")
+    ctx.clause("C14.7 a page whose load failed (checksum mismatch) is not stepped over by the next call: the cursor advances only past a loaded page, with page_loaded cleared first")
+    from . import C02
+    C02._page_cursor(ctx, P.fn("carquet_read_next_page", "src/reader/page_reader.c"))
     _crc_presence(ctx)
     # the four loaders are executed abstractly per scenario (header parser, positioned reads, CRC, codecs,
     # allocator and page decoders hooked): what is checksummed, when verification applies, and what a
